@@ -188,7 +188,7 @@ def main(tier):
                 vlib.print_known(PID, k["what"])
             ev.count("known_findings_replayed")
     ctx.close()
-    n = 8000 if tier == "quick" else 300000
+    n = 8000 if tier == "quick" else 50000
     failures = hyp.run("c07", ev, tier, n)
     confirmed = hyp.confirm("c07", failures, PID)
     for p, what in confirmed:
